@@ -514,6 +514,36 @@ impl Machine {
                             };
                             return Ok(self.make_closure(params, rest, v[2..].to_vec(), env));
                         }
+                        "let" | "let*" if v.len() >= 3 => {
+                            // derived forms: (let ((n v) ...) body ...) = ((lambda (n ...) body ...) v ...);
+                            // let* = nested lets. Only non-empty binding lists (the bundled rules need one).
+                            let bindings = match &v[1] {
+                                Sx::List(b) if !b.is_empty() => b.clone(),
+                                _ => return Err(RErr::Unsupported("let without bindings".into())),
+                            };
+                            let mut pairs = vec![];
+                            for b in &bindings {
+                                match b {
+                                    Sx::List(p) if p.len() == 2 && p[0].as_sym().is_some() => pairs.push((p[0].clone(), p[1].clone())),
+                                    _ => return Err(RErr::Syntax),
+                                }
+                            }
+                            let body = v[2..].to_vec();
+                            let expanded = if head == "let" || pairs.len() == 1 {
+                                let mut lam = vec![Sx::Sym("lambda".into()), Sx::List(pairs.iter().map(|p| p.0.clone()).collect())];
+                                lam.extend(body);
+                                let mut app = vec![Sx::List(lam)];
+                                app.extend(pairs.iter().map(|p| p.1.clone()));
+                                Sx::List(app)
+                            } else {
+                                let first = Sx::List(vec![Sx::List(vec![pairs[0].0.clone(), pairs[0].1.clone()])]);
+                                let rest = Sx::List(pairs[1..].iter().map(|p| Sx::List(vec![p.0.clone(), p.1.clone()])).collect());
+                                let mut inner = vec![Sx::Sym("let*".into()), rest];
+                                inner.extend(body);
+                                Sx::List(vec![Sx::Sym("let".into()), first, Sx::List(inner)])
+                            };
+                            return self.eval(&expanded, env);
+                        }
                         "import" | "define-library" | "define-syntax" | "begin" | "let" | "let*"
                         | "cond" | "case" | "and" | "or" | "when" | "unless" => {
                             return Err(RErr::Unsupported(format!("{} in expression", head)))
